@@ -18,14 +18,16 @@ import (
 )
 
 type PlanSpec struct {
-	Pkg      string  `json:"pkg"`
-	Func     string  `json:"func"`
-	Params   []int   `json:"params,omitempty"`
-	Sweep    [][]int `json:"sweep,omitempty"` // per parameter [lo,hi] inclusive: cartesian product
-	Sets     [][]int `json:"sets,omitempty"`  // explicit parameter tuples
-	MaxSteps int     `json:"max_steps,omitempty"`
-	MaxPaths int     `json:"max_paths,omitempty"`
-	Note     string  `json:"note,omitempty"`
+	Pkg      string   `json:"pkg"`
+	Func     string   `json:"func"`
+	Params   []int    `json:"params,omitempty"`
+	Sweep    [][]int  `json:"sweep,omitempty"` // per parameter [lo,hi] inclusive: cartesian product
+	Sets     [][]int  `json:"sets,omitempty"`  // explicit parameter tuples
+	MaxSteps int      `json:"max_steps,omitempty"`
+	MaxPaths int      `json:"max_paths,omitempty"`
+	Note     string   `json:"note,omitempty"`
+	Only     []string `json:"only_labels,omitempty"`
+	Ignore   []string `json:"ignore_labels,omitempty"`
 }
 
 type PlanProp struct {
@@ -57,7 +59,7 @@ func expand(ps []PlanSpec) []*HarnessSpec {
 			pkg = modPath + "/" + pkg
 		}
 		mk := func(params []int) {
-			out = append(out, &HarnessSpec{Pkg: pkg, Func: p.Func, Params: append([]int(nil), params...), MaxSteps: p.MaxSteps, MaxPaths: p.MaxPaths, Note: p.Note})
+			out = append(out, &HarnessSpec{Pkg: pkg, Func: p.Func, Params: append([]int(nil), params...), MaxSteps: p.MaxSteps, MaxPaths: p.MaxPaths, Note: p.Note, Only: p.Only, Ignore: p.Ignore})
 		}
 		switch {
 		case len(p.Sweep) > 0:
